@@ -32,7 +32,10 @@ RULE_ADDED = (
               'iB .. 4 MiB) so that the saved, indented form sits above it. '
               ' '
               'Round 10: non-finite numbers and huge integers as names, signer references and v'
-              'alues. ')
+              'alues. '
+              ' '
+              'Round 11: x509 elements whose signature algorithm identifier is unknown to the l'
+              'ibrary. ')
 RULE = RULE + " " + RULE_ADDED.strip()
 ASSUMPTIONS = [
     "any exception out of from_jsonfile counts as 'reports an error' (the admin tools turn "
